@@ -54,11 +54,13 @@ OptsCoreQ == {Oa("AddLayer", ""), Oi("RmIndex", 0), Oi("RmIndex", 1), Os("RmCrea
               Oa("StripFile", "l2"), Oa("StripFile", "nosuch"), Oa("LayerTime", "set"), Oa("Compress", "zstd"),
               Oa("BuildArgRm", "a1"), O("Rebase")}
 ImagesData == {Img(2, <<"L", "E", "L">>, sh, "oci", "gzip", TRUE, FALSE) : sh \in {"image", "index"}}
-\* minimal programs that show each known defect of the code as it is (C13_mc_asis_*.cfg)
+\* minimal programs that show each repaired defect when its switch is off (C13_mc_asis_*.cfg)
 OptsAsisData == {Oa("Data", "all")}
 OptsAsisWriter == {Oa("Compress", "zstd"), Oa("LayerTime", "set")}
 OptsAsisAdded == {Oa("AddLayer", ""), Oa("StripFile", "nosuch")}
 OptsAsisTag == {Oa("Data", "keep")}
+OptsAsisDesc == {Oa("ManifestDigest", "sha512")}
+ImagesDataRefs == {Img(2, <<"L", "E", "L">>, "index", "oci", "gzip", TRUE, TRUE)}
 OptsAsisClose == {Oa("LayerDigest", "sha512"), Oa("Compress", "zstd")}
 AllPlaces == {"same-digest", "same-tag", "same-replace", "cross"}
 =============================================================================
